@@ -109,8 +109,16 @@ def _work(pid, seed, index, tier, repo):
     out = {'index': index, 'violations': [], 'stats': {}, 'error': None}
     try:
         scn = prop.generate(seed, index, tier)
+        if os.environ.get('EVOSIM_DIGEST'):
+            runner.DIGEST = hashlib.sha256()
+            runner.digest_update(scn)
         res = prop.execute(scn)
         out.update(res)
+        if os.environ.get('EVOSIM_DIGEST'):
+            runner.digest_update([res.get('violations'), res.get('stats'),
+                                  res.get('shape')])
+            out['digest'] = runner.DIGEST.hexdigest()
+            runner.DIGEST = None
         if res.get('violations') or res.get('want_scenario'):
             out['scenario'] = scn
     except Exception as e:
